@@ -147,7 +147,8 @@ def run_case(rec: Recorder, case: dict[str, typing.Any]) -> None:
             req_ticks = [e[0] for e in evs if e[1] == "request"]
             after = req_ticks[0] if req_ticks else -1
             sets = [e for e in evs if e[1] == "settimeout"]
-            recvs = [e for e in evs if e[1] == "recv" and e[0] > after]
+            # (no request written = no response wait at all: reads of a CONNECT exchange before it are not one)
+            recvs = [e for e in evs if e[1] == "recv" and e[0] > after] if req_ticks else []
             rec.mon("negative_check")
             for e in sets:
                 try:
